@@ -363,6 +363,11 @@ def real_cal(c, tmp):
     for s in (".neighbor.dat", ".edgelength.dat", ".facearea.dat", ".overall.dat"):
         if os.path.exists(out + s):
             os.remove(out + s)
+    if c["N"] % 3 != 1:
+        # files of these names are left over from an earlier analysis: the call must replace them, not add to them
+        for s in (".neighbor.dat", ".edgelength.dat", ".facearea.dat", ".overall.dat"):
+            with open(out + s, "w") as f:
+                f.write("id   cn   stale\n1 2 2 3\n2 1 1\n3 1 1\n" * 2)
     s = snapshots_of(c)
     h0 = digest(s)
     try:
